@@ -4,7 +4,7 @@ cd /verif
 tools/rebase_seeds.sh
 : > seeded/RESULTS.tsv
 for d in seeded/C*/; do d=${d%/}; id=$(basename $d); p=${id%-*}
-  ( out=$(timeout 2400 tools/try_seed.sh $d $p 2>&1 | grep -v KNOWN | tail -2 | tr '\n' ' ' | cut -c1-400); printf "%s\t%s\n" "$id" "$out" >> seeded/RESULTS.tsv ) &
+  ( out=$(timeout 3400 tools/try_seed.sh $d $p 2>&1 | grep -v KNOWN | tail -2 | tr '\n' ' ' | cut -c1-400); printf "%s\t%s\n" "$id" "$out" >> seeded/RESULTS.tsv ) &
   while [ $(jobs -r | wc -l) -ge 3 ]; do sleep 2; done
 done
 wait
